@@ -631,10 +631,12 @@ func init() {
 				jobs = append(jobs, j)
 			}
 			maxN := 2
-			if tier == "thorough" {
-				maxN = 3
-			}
 			for _, mode := range []string{"emacs", "vi-insert"} {
+				if tier == "thorough" {
+					// three characters: 95^3 dispatch paths are out of reach; the characters
+					// with a meaning of their own in the editor instead
+					add(mode, 3, "special", "default")
+				}
 				for n := 1; n <= maxN; n++ {
 					add(mode, n, "ascii", "default")
 					if n <= 1 || (tier == "thorough" && n <= 2) {
@@ -655,7 +657,7 @@ func init() {
 			"autopairs and autocomplete are off (with them on the library inserts text by design)",
 		}, stepAssumptions[1:]...),
 		Stubs:  []string{"tty ioctls", "stdin = zzverif.Script", "stdout discarded"},
-		Bounds: map[string]string{"quick": "n <= 2 runes", "thorough": "n <= 3 (ASCII), n <= 2 (non-ASCII classes)"},
+		Bounds: map[string]string{"quick": "n <= 2 runes", "thorough": "n <= 2 runes; all six meta variables symbolic up to n = 2; n = 3 over 14 ASCII characters with a meaning of their own (quotes, brackets, backslash, ~ ^ ` # !, a letter, the blank)"},
 		Rule:   "one state per completed symbolic path",
 		IgnoreKinds: []string{"panic", "hang", "deadlock", "spin"},
 	}
